@@ -123,10 +123,18 @@ where
     }
     let get = |col: usize, row: usize| -> Option<F> { table.get(&(col, row)).copied() };
     let mut done = 0;
-    for r in &rec.regions {
+    for (ri, r) in rec.regions.iter().enumerate() {
         if done >= limit {
             break;
         }
+        // range checks issued right after the region: one "decompose core" region per
+        // `assert_lower_than_fixed` call (interleaved with "copy" regions)
+        let rc = rec.regions[ri + 1..]
+            .iter()
+            .take_while(|q| q.name == "decompose core" || q.name == "copy")
+            .filter(|q| q.name == "decompose core")
+            .count();
+        let ncells = rec.cells.iter().filter(|c| c.region == ri).count();
         let Some(row0) = r.first_row else { continue };
         let is_mul = r.name == "Foreign multiplication";
         if !is_mul && r.name != "Foreign norm" {
@@ -145,14 +153,14 @@ where
                 "mulrow",
                 true,
                 &format!("mulrow {name} {} {} {}", mzkh::join(&xs), mzkh::join(&ys), mzkh::join(&zs)),
-                &format!("{} {} ok", u.unwrap(), mzkh::join(&vs)),
+                &format!("{} {} ok cells={ncells} rc={rc}", u.unwrap(), mzkh::join(&vs)),
             );
         } else {
             ctx.case(
                 "normrow",
                 true,
                 &format!("normrow {name} {}", mzkh::join(&xs)),
-                &format!("{} {} {} ok", mzkh::join(&zs), u.unwrap(), mzkh::join(&vs)),
+                &format!("{} {} {} ok cells={ncells} rc={rc}", mzkh::join(&zs), u.unwrap(), mzkh::join(&vs)),
             );
         }
         done += 1;
